@@ -66,11 +66,17 @@ def continuous(spec):
     return True
 
 
-def compare_tail(R, label, A, B, k, exact, judge_beyond_first, rtol=1e-9):
-    """A: arrays of the earlier run, B: arrays of the restarted run; B[j] <-> A[k+j]."""
+def compare_tail(R, label, A, B, k, exact, judge_beyond_first, rtol=1e-9, skip_pars=(), model_scale=False):
+    """A: arrays of the earlier run, B: arrays of the restarted run; B[j] <-> A[k+j].  skip_pars: parameters judged only
+    through the stocks and flows they drive; model_scale: the tolerance floor is rtol x the largest stock / flow."""
     diffs = []
     nB = B[("t",)].shape[0]
+    floor = 1.0
+    if model_scale:
+        floor = max([1.0] + [float(np.nanmax(np.abs(np.where(np.isfinite(v), v, 0.0)))) for kk, v in A.items() if kk[0] in ("comp", "link") and v.size])
     for key in B:
+        if key[0] == "par" and key[-1] in skip_pars:
+            continue
         if key == ("t",) or key not in A:
             if key not in A and key != ("t",):
                 diffs.append((key, None, "missing", "present"))
@@ -86,7 +92,7 @@ def compare_tail(R, label, A, B, k, exact, judge_beyond_first, rtol=1e-9):
             ok = (x == y) | (np.isnan(x) & np.isnan(y))
         else:
             with np.errstate(all="ignore"):
-                sc_ = np.maximum(1.0, np.maximum(np.abs(x), np.abs(y)))
+                sc_ = np.maximum(floor if key[0] in ("comp", "link", "bins", "charac") else 1.0, np.maximum(np.abs(x), np.abs(y)))
                 ok = (np.abs(x - y) <= rtol * sc_) | (np.isnan(x) & np.isnan(y))
         if not np.all(ok):
             idx = np.argwhere(~ok)[0]
@@ -187,7 +193,11 @@ def run_case(case):
                 R.count("spreadsheet_restarts_compared")
                 # the saved state itself (compartments and their bins) to the 16 digits a spreadsheet stores
                 d0 = compare_tail(R, "ss", {k_: v for k_, v in B.items() if k_[0] in ("comp", "bins", "t")}, {k_: v for k_, v in C.items() if k_[0] in ("comp", "bins", "t")}, 0, exact=False, judge_beyond_first=False, rtol=1e-15)
-                d1 = compare_tail(R, "ss", B, C, 0, exact=False, judge_beyond_first=True, rtol=1e-9) if cont else []
+                # beyond the first index a state that differs in the 16th digit is propagated by the model: function parameters
+                # (a ratio of two nearly empty compartments has no bounded condition number) are judged through the stocks and
+                # flows they drive, to 1e-9 of the model's scale
+                fpars = {n for n, f in P.framework.pars["function"].items() if isinstance(f, str)}
+                d1 = compare_tail(R, "ss", B, C, 0, exact=False, judge_beyond_first=True, rtol=1e-9, skip_pars=fpars, model_scale=True) if cont else []
                 if d0:
                     R.bad("spreadsheet-restart", "C10:spreadsheet-restart-initial-state-differs[%s]" % str(d0[0][0][0]), {"first_differences": [list(map(str, d)) for d in d0[:4]]})
                 elif d1:
